@@ -50,6 +50,9 @@ func (r *yieldRewriter) rewritePartialRedeclare(c *astutil.Cursor, n *ast.Assign
 		if !ok || id.Name == "_" || info.Defs[id] != nil {
 			continue
 		}
+		if id.Pos() == token.NoPos {
+			continue // generated stmt
+		}
 		obj := info.Uses[id]
 		if obj == nil || !r.yieldSinceDeclared(prev, obj) {
 			continue
@@ -69,8 +72,8 @@ func (r *yieldRewriter) rewritePartialRedeclare(c *astutil.Cursor, n *ast.Assign
 	}
 }
 
-// whether a stmt containing yield sits between the declaration of obj and the end of stmts
-// (params and named results are declared before the first stmt)
+// whether a func lit boundary will sit between the declaration of obj and the end of stmts,
+// i.e., a stmt containing yield in between, or obj is a param / named result / receiver
 func (r *yieldRewriter) yieldSinceDeclared(stmts []ast.Stmt, obj types.Object) bool {
 	info := r.pkg.TypesInfo
 	declares := func(stmt ast.Stmt) bool {
@@ -107,5 +110,7 @@ func (r *yieldRewriter) yieldSinceDeclared(stmts []ast.Stmt, obj types.Object) b
 			yield = true
 		}
 	}
-	return yield
+	// params, named results and receivers are declared by no stmt, and the body of yield func
+	// always moves into a callback func lit (closures created before the redeclaration capture the param)
+	return true
 }
